@@ -46,6 +46,9 @@ pub(crate) struct ForkScenario<'a> {
     /// / the script's block number go back while the index is kept, and the fork arrives before
     /// the re-sync has passed the fork point
     pub rewind_before_switch: u8,
+    /// block bodies travel slower than everything else: a body that was requested on the old
+    /// branch arrives after the proof of the new one
+    pub slow_blocks: bool,
 }
 
 fn trusted_store(sim: &Sim) -> String {
@@ -85,6 +88,7 @@ impl<'a> Scenario for ForkScenario<'a> {
         let mut world = World::new(vec![self.old.clone(), self.new.clone()], self.cfg.cp_interval);
         world.add_peer(1, 0, self.old.tip_number());
         world.filter_batch = self.filter_batch;
+        world.slow_blocks = self.slow_blocks;
         crate::verif::client::set_now(crate::verif::world::BASE_TS + 1_000_000);
         let mut sim = match old {
             Some(old) => Sim::recycle(old, self.cfg.clone(), world),
@@ -169,6 +173,7 @@ pub(crate) struct Item {
     growth: u64,
     set: usize,
     rewind: u8,
+    slow: bool,
 }
 
 fn chains(env: &Env, item: &Item) -> (Chain, Chain, u64) {
@@ -219,12 +224,17 @@ pub(crate) fn run(opts: &Opts, report: &mut Report) {
             // probability; last-N+6 exercises the sampled path with a lower one)
             for growth in if thorough { (1..=(last_n + 2)).chain([last_n + 6]).collect::<Vec<_>>() } else { vec![1, last_n, last_n + 2, last_n + 6] } {
                 for set in if thorough { vec![0usize, 1, 2, 3] } else { vec![1usize, 3] } {
-                    items.push(Item { last_n, depth, growth, set, rewind: 0 });
+                    items.push(Item { last_n, depth, growth, set, rewind: 0, slow: false });
                     // the same with a set_scripts that rewinds filter syncing right before the
                     // switch after the full sync (shallow forks, one script set; thorough: all)
+                    // slow block bodies (shallow forks): bodies requested on the old branch arrive
+                    // after the proof of the new one
                     if depth <= last_n && (thorough || set == 1) {
-                        items.push(Item { last_n, depth, growth, set, rewind: 1 });
-                        items.push(Item { last_n, depth, growth, set, rewind: 2 });
+                        items.push(Item { last_n, depth, growth, set, rewind: 0, slow: true });
+                    }
+                    if depth <= last_n && (thorough || set == 1) {
+                        items.push(Item { last_n, depth, growth, set, rewind: 1, slow: false });
+                        items.push(Item { last_n, depth, growth, set, rewind: 2, slow: false });
                     }
                 }
             }
@@ -242,7 +252,7 @@ pub(crate) fn run(opts: &Opts, report: &mut Report) {
             2 => vec![Reg { script: s.b.clone(), is_lock: true, start: 0 }, Reg { script: s.a.clone(), is_lock: true, start: 6 }],
             _ => vec![Reg { script: s.t.clone(), is_lock: false, start: 0 }, Reg { script: s.b.clone(), is_lock: true, start: 0 }],
         };
-        let name = format!("lastN{}/depth{}/growth{}/set{}{}", item.last_n, item.depth, item.growth, item.set, ["", "/rewind", "/registered-again"][item.rewind as usize]);
+        let name = format!("lastN{}/depth{}/growth{}/set{}{}", item.last_n, item.depth, item.growth, item.set, format!("{}{}", ["", "/rewind", "/registered-again"][item.rewind as usize], if item.slow { "/slow-blocks" } else { "" }));
         let sc = ForkScenario {
             env: &env,
             name: name.clone(),
@@ -255,6 +265,7 @@ pub(crate) fn run(opts: &Opts, report: &mut Report) {
             before_switch: RefCell::new(None),
             explore_switch_moment: true, switch_while_down: false, filter_batch: 6,
             rewind_before_switch: item.rewind,
+            slow_blocks: item.slow,
         };
         let long_fork = item.depth > item.last_n;
         let mut skipped_banned = 0u64;
@@ -382,13 +393,13 @@ pub(crate) fn run(opts: &Opts, report: &mut Report) {
 
 pub(crate) fn debug_case() {
     let env = Env::dummy();
-    let item = Item { last_n: 2, depth: 1, growth: 4, set: 0, rewind: 0 };
+    let item = Item { last_n: 2, depth: 1, growth: 4, set: 0, rewind: 0, slow: false };
     let (old, new, new_tip) = chains(&env, &item);
     let s = &env.scripts;
     let regs = vec![Reg { script: s.a.clone(), is_lock: true, start: 0 }];
     let sc = ForkScenario {
         env: &env, name: "dbg".into(), old, new, regs, cfg: ClientCfg { last_n: 2, cp_interval: 4, ..Default::default() },
-        new_tip, switched: Cell::new(false), before_switch: RefCell::new(None), explore_switch_moment: true, switch_while_down: false, filter_batch: 6, rewind_before_switch: 0,
+        new_tip, switched: Cell::new(false), before_switch: RefCell::new(None), explore_switch_moment: true, switch_while_down: false, filter_batch: 6, rewind_before_switch: 0, slow_blocks: false,
     };
     let mut sim = sc.init(None);
     sim.record_trace = true;
@@ -410,7 +421,7 @@ pub(crate) fn debug_case() {
 
 /// The fork scenario for other checks (C08): full sync of the old branch, then the switch.
 pub(crate) fn scenario<'a>(env: &'a Env, last_n: u64, depth: u64, growth: u64, set: usize) -> (ForkScenario<'a>, Vec<Reg>) {
-    let item = Item { last_n, depth, growth, set, rewind: 0 };
+    let item = Item { last_n, depth, growth, set, rewind: 0, slow: false };
     let (old, new, new_tip) = chains(env, &item);
     let s = &env.scripts;
     let regs: Vec<Reg> = match set {
@@ -430,7 +441,7 @@ pub(crate) fn scenario<'a>(env: &'a Env, last_n: u64, depth: u64, growth: u64, s
             switched: Cell::new(false),
             before_switch: RefCell::new(None),
             explore_switch_moment: false,
-            switch_while_down: false, filter_batch: 6, rewind_before_switch: 0,
+            switch_while_down: false, filter_batch: 6, rewind_before_switch: 0, slow_blocks: false,
         },
         regs,
     )
